@@ -121,6 +121,99 @@ type C15Opq struct {
 	MA  map[string]any
 }
 
+// non-empty interfaces and multi-level pointers.  C15Namer is implemented by C15NV (value receiver:
+// C15NV and *C15NV) and by *C15NP (pointer receiver: C15NP itself does not implement it) and by no
+// other type of the universe (checked at start-up).  What lies below a C15Namer-typed slot is known
+// only at request time: a source path may go through it (run-time checker), a target path may not
+// (nothing can be instantiated there).  No path can go through a pointer to a pointer: extraction
+// and assignment follow one pointer level.
+type C15Namer interface{ C15Name() string }
+
+type C15NV struct {
+	S string
+	N int
+}
+
+func (v C15NV) C15Name() string { return v.S }
+
+type C15NP struct {
+	S string
+	L C15Leaf
+	A any
+}
+
+func (p *C15NP) C15Name() string { return p.S }
+
+type C15Deep struct {
+	S   string
+	N   int
+	R   C15Namer
+	R2  C15Namer
+	PP  **C15Leaf
+	PPP ***C15Leaf
+	PPN **C15NP
+	MR  map[string]C15Namer
+	MPP map[string]**C15Leaf
+	NV  C15NV
+	PNP *C15NP
+	PL  *C15Leaf
+	A   any
+}
+
+var (
+	c15NamerType = reflect.TypeOf((*C15Namer)(nil)).Elem()
+	// the concrete types of the universe that implement C15Namer, in the order of the descriptor
+	c15NamerImpls = []reflect.Type{reflect.TypeOf(C15NV{}), reflect.TypeOf(&C15NV{}), reflect.TypeOf(&C15NP{})}
+)
+
+// c15TyName: the Go spelling of a type of the universe without the package (Model/C15.lean
+// `tyName`): the key of an interface descriptor's `impls` list.
+func c15TyName(rt reflect.Type) string {
+	switch rt.Kind() {
+	case reflect.String:
+		return "string"
+	case reflect.Int:
+		return "int"
+	case reflect.Interface:
+		if rt == c15AnyType {
+			return "interface {}"
+		}
+		return rt.Name()
+	case reflect.Ptr:
+		return "*" + c15TyName(rt.Elem())
+	case reflect.Map:
+		return "map[string]" + c15TyName(rt.Elem())
+	case reflect.Struct:
+		return rt.Name()
+	}
+	return rt.String()
+}
+
+// c15CheckIfaces: the descriptor of a non-empty interface lists exactly the implementing types of
+// the universe, and the spelling identifies a type (start-up check of what the model assumes).
+func c15CheckIfaces() {
+	names := map[string]reflect.Type{}
+	listed := map[reflect.Type]bool{}
+	for _, rt := range c15NamerImpls {
+		listed[rt] = true
+	}
+	var all []reflect.Type
+	for _, rt := range c15ByDesc {
+		all = append(all, rt)
+	}
+	all = append(all, c15DynTypes...)
+	for _, rt := range all {
+		n := c15TyName(rt)
+		if o, ok := names[n]; ok && o != rt {
+			panic(fmt.Sprintf("c15: types %v and %v share the spelling %q", o, rt, n))
+		}
+		names[n] = rt
+		if rt.Kind() != reflect.Interface && rt.Implements(c15NamerType) != listed[rt] {
+			panic(fmt.Sprintf("c15: %v implements C15Namer: %v, listed: %v", rt, rt.Implements(c15NamerType), listed[rt]))
+		}
+	}
+}
+
 type c15J = map[string]any
 
 // the non-nil values of the opaque types, by token: a value of an opaque type travels to the
@@ -213,6 +306,8 @@ func c15Reg[T any](name string) {
 		"MapAny": func(c *c15Case, vals []reflect.Value) *c15Impl { return c15RunT[map[string]any, T](c, vals) },
 		"Wrap":   func(c *c15Case, vals []reflect.Value) *c15Impl { return c15RunT[C15Wrap, T](c, vals) },
 		"PEmbP":  func(c *c15Case, vals []reflect.Value) *c15Impl { return c15RunT[*C15EmbP, T](c, vals) },
+		"Deep":   func(c *c15Case, vals []reflect.Value) *c15Impl { return c15RunT[C15Deep, T](c, vals) },
+		"PNP":    func(c *c15Case, vals []reflect.Value) *c15Impl { return c15RunT[*C15NP, T](c, vals) },
 	}
 	c15Types[name] = ti
 	c15TypeList = append(c15TypeList, name)
@@ -276,7 +371,18 @@ func init() {
 		reflect.TypeOf((chan int)(nil)), reflect.TypeOf((chan string)(nil))} {
 		c15RegDesc(rt)
 	}
+	c15Reg[C15Deep]("Deep")
+	c15Reg[*C15Deep]("PDeep")
+	c15Reg[map[string]C15Namer]("MapNamer")
+	c15Reg[**C15Leaf]("PPLeaf")
+	c15Reg[C15NV]("NV")
+	c15Reg[*C15NP]("PNP")
+	for _, rt := range []reflect.Type{reflect.TypeOf(&C15NV{}), reflect.TypeOf(C15NP{}), reflect.TypeOf((***C15Leaf)(nil)),
+		reflect.TypeOf((**C15NP)(nil)), reflect.TypeOf(map[string]**C15Leaf{}), c15NamerType} {
+		c15RegDesc(rt)
+	}
 	c15InitEmb()
+	c15CheckIfaces()
 }
 
 // ---------------------------------------------------------------------------------------
@@ -387,6 +493,7 @@ func c15InitEmb() {
 
 // c15TyDesc: {"k":"str"|"int"|"any"} | {"k":"ptr"|"map","e":T} | {"k":"struct","name":..,"fields":[{"n","t"}]}
 // | {"k":"opq","kind":"slice"|"func"|"chan","name":Go spelling}
+// | {"k":"iface","name":..,"impls":[spellings of the implementing types]}
 func c15TyDesc(rt reflect.Type) c15J {
 	switch rt.Kind() {
 	case reflect.Slice, reflect.Func, reflect.Chan:
@@ -396,6 +503,16 @@ func c15TyDesc(rt reflect.Type) c15J {
 	case reflect.Int:
 		return c15J{"k": "int"}
 	case reflect.Interface:
+		if rt == c15NamerType {
+			impls := []any{}
+			for _, it := range c15NamerImpls {
+				impls = append(impls, c15TyName(it))
+			}
+			return c15J{"k": "iface", "name": rt.Name(), "impls": impls}
+		}
+		if rt != c15AnyType {
+			panic("c15: interface type outside the universe: " + rt.String())
+		}
 		return c15J{"k": "any"}
 	case reflect.Ptr:
 		return c15J{"k": "ptr", "e": c15TyDesc(rt.Elem())}
@@ -537,6 +654,9 @@ func c15Dec(d c15J, rt reflect.Type) (reflect.Value, error) {
 		if err != nil {
 			return out, err
 		}
+		if !drt.AssignableTo(rt) {
+			return out, fmt.Errorf("c15Dec: dynamic type %v at %v", drt, rt)
+		}
 		out.Set(iv)
 	case reflect.Ptr:
 		if k == "nil" {
@@ -609,6 +729,17 @@ func c15TargetPaths(rt reflect.Type, depth int, pre []string, via bool, out *[]c
 		}
 		return
 	case reflect.Interface:
+		if t != c15AnyType {
+			// below a non-empty interface nothing can be instantiated: compilation has to reject these
+			// (as a statically valid SOURCE path: a field of the dynamic type, a key, a second level)
+			for _, k := range []string{"S", c15Keys[0]} {
+				*out = append(*out, c15PathInfo{path: append(append([]string{}, pre...), k), ty: c15AnyType, via: true})
+			}
+			if depth > 1 {
+				*out = append(*out, c15PathInfo{path: append(append([]string{}, pre...), "L", "S"), ty: c15AnyType, via: true})
+			}
+			return
+		}
 		for _, k := range c15Keys[:2] {
 			c15TargetPaths(c15AnyType, depth-1, append(pre, k), true, out)
 		}
